@@ -221,7 +221,7 @@ def lean_prepare(prop_id, extra_modules=(), thorough=False, log=print, prebuild=
         if extra:
             st.bad.append('audit: %s depends on %s' % (t, sorted(extra)))
     if thorough:
-        mods = ['Mistletoe.Props.' + prop_id] + list(extra_modules)
+        mods = ['Mistletoe.Props.' + prop_id] + [m for m in extra_modules if m.startswith('Mistletoe.')]
         t0 = time.time()
         rc, out = _run(['lake', 'env', 'leanchecker'] + mods, cwd=LEAN, timeout=3000)
         log('leanchecker %s: rc=%d in %.1fs' % (' '.join(mods), rc, time.time() - t0))
